@@ -355,4 +355,135 @@ theorem newton_step_true (U k s x m L v : Nat) (hnL : k + 2 < 2 ^ L) (hs1 : s ^ 
       exact Nat.le_trans (Nat.mul_le_mul_right _ this) hev
     · left; omega
 
+
+/-! ### the Newton round of the C (limb buffers, the `un - pn == xn` test, saturation) -/
+
+theorem quot_lt_pow (U P : Nat) (hP : 0 < P) (hPU : P ≤ U) :
+    U / P < B ^ (limbLen U - limbLen P + 1) := by
+  have h1 := lt_pow_limbLen U
+  have h2 := pow_limbLen_le P hP
+  have h3 := limbLen_mono hPU
+  have hp1 : 1 ≤ limbLen P := by
+    have := lt_limbLen_of_pow_le (a := P) (j := 0) (by rw [pow_zero]; exact hP); omega
+  by_contra hc
+  have hc' : B ^ (limbLen U - limbLen P + 1) ≤ U / P := by omega
+  have h4 : B ^ (limbLen U - limbLen P + 1) * B ^ (limbLen P - 1) ≤ (U / P) * P := Nat.mul_le_mul hc' h2
+  rw [← pow_add] at h4
+  have h5 : limbLen U - limbLen P + 1 + (limbLen P - 1) = limbLen U := by omega
+  rw [h5] at h4
+  have := Nat.div_mul_le_self U P
+  omega
+
+theorem bcNewtonStep_eq (U n xn x : Nat) (hn : 2 ≤ n) (hnB : n < B)
+    (hxlo : B ^ (xn - 1) ≤ x) (hxW : x < B ^ xn) (hxn : 1 ≤ xn)
+    (hPU : x ^ (n - 1) ≤ U)
+    (hstale : xn ≤ limbLen U - limbLen (x ^ (n - 1)) + 2)
+    (hbig : B ^ xn ≤ U / x ^ (n - 1) → limbLen U - limbLen (x ^ (n - 1)) = xn)
+    (hx' : newtonTrue U n x ≤ B ^ xn) :
+    bcNewtonStep U (limbLen U) n xn x = some (min (newtonTrue U n x) (B ^ xn - 1)) := by
+  have hxpos : 0 < x := Nat.lt_of_lt_of_le (pow_pos B_pos _) hxlo
+  have hP : 0 < x ^ (n - 1) := pow_pos hxpos _
+  have hpn := limbLen_mono hPU
+  unfold bcNewtonStep pow1
+  rw [if_pos hxlo]
+  simp only [Option.bind_eq_bind, Option.bind_some]
+  rw [if_neg (by omega), if_neg (by omega)]
+  congr 1
+  unfold newtonTrue at hx' ⊢
+  have hQlt := quot_lt_pow U _ hP hPU
+  generalize hun : limbLen U = un at *
+  generalize hpn' : limbLen (x ^ (n - 1)) = pn at *
+  generalize hQ : U / x ^ (n - 1) = Q at *
+  generalize hW : B ^ xn = W at *
+  have hWpos : 0 < W := by rw [← hW]; exact pow_pos B_pos _
+  have hBW : B ≤ W := by
+    rw [← hW]
+    calc B = B ^ 1 := (pow_one _).symm
+      _ ≤ B ^ xn := Nat.pow_le_pow_right B_pos hxn
+  have hnpos : 0 < n := by omega
+  -- T = Q + (n-1) x, T / n ≤ W
+  obtain ⟨T, hT⟩ : ∃ T, T = Q + (n - 1) * x := ⟨_, rfl⟩
+  rw [← hT] at hx' ⊢
+  have hTlt : T < n * W + n := by
+    have := Nat.lt_mul_div_succ T hnpos
+    have h2 : n * (T / n + 1) ≤ n * (W + 1) := Nat.mul_le_mul_left _ (by omega)
+    have : n * (W + 1) = n * W + n := by ring
+    omega
+  have hn1x : (n - 1) * x ≤ (n - 1) * W := Nat.mul_le_mul_left _ (Nat.le_of_lt hxW)
+  have hn1x' : (n - 1) * x + x ≤ (n - 1) * W + (W - 1) := by omega
+  have hnW : (n - 1) * W + W = n * W := by
+    have : n = (n - 1) + 1 := by omega
+    calc (n - 1) * W + W = ((n - 1) + 1) * W := by ring
+      _ = n * W := by rw [← this]
+  by_cases hQW : Q < W
+  · -- the quotient fits in xn limbs
+    have hQm : Q % W = Q := Nat.mod_eq_of_lt hQW
+    have hQd : Q / W = 0 := Nat.div_eq_of_lt hQW
+    rw [hQm, hQd, ← hT]
+    have hTW : T < n * W := by
+      have : (n - 1) * x < (n - 1) * W + 1 := by omega
+      omega
+    have hcy : T / W < n := (Nat.div_lt_iff_lt_mul hWpos).mpr hTW
+    have hr : (if un - pn = xn then (if (T / W + 0 % B) % B = n then (W - 1, n - 1) else (T % W, (T / W + 0 % B) % B))
+        else (T % W, T / W)) = (T % W, T / W) := by
+      have e : (T / W + 0 % B) % B = T / W := by
+        rw [Nat.zero_mod, Nat.add_zero]; exact Nat.mod_eq_of_lt (by omega)
+      rw [e]
+      split
+      · rw [if_neg (by omega)]
+      · rfl
+    rw [hr]
+    have hdm : T / W * W + T % W = T := by rw [Nat.mul_comm]; exact Nat.div_add_mod T W
+    rw [hdm]
+    have hTn : T / n < W := (Nat.div_lt_iff_lt_mul hnpos).mpr (by rw [Nat.mul_comm]; exact hTW)
+    rw [Nat.mod_eq_of_lt hTn]
+    exact (Nat.min_eq_left (by omega)).symm
+  · -- the quotient has xn + 1 limbs: the C must see un - pn == xn
+    have hQW' : W ≤ Q := by omega
+    have hsz := hbig hQW'
+    rw [hsz, pow_succ, hW] at hQlt
+    have hQB : Q / W < B := by
+      rw [Nat.div_lt_iff_lt_mul hWpos, Nat.mul_comm]; exact hQlt
+    rw [if_pos hsz, Nat.mod_eq_of_lt hQB]
+    obtain ⟨t, ht⟩ : ∃ t, t = Q % W + (n - 1) * x := ⟨_, rfl⟩
+    rw [← ht]
+    have hTt : T = t + (Q / W) * W := by
+      have := Nat.div_add_mod Q W
+      rw [hT, ht]; nlinarith
+    have hdiv : t / W + Q / W = T / W := by
+      rw [hTt, Nat.add_mul_div_right _ _ hWpos]
+    have hmod : t % W = T % W := by rw [hTt, Nat.add_mul_mod_self_right]
+    have hcyle : T / W ≤ n := by
+      have : T < (n + 1) * W := by
+        have : (n + 1) * W = n * W + W := by ring
+        omega
+      have := (Nat.div_lt_iff_lt_mul hWpos).mpr this
+      omega
+    have hTWB : T / W % B = T / W := Nat.mod_eq_of_lt (by omega)
+    rw [hdiv, hTWB, hmod]
+    by_cases hsat : T / W = n
+    · rw [if_pos hsat]
+      have hTge : n * W ≤ T := by
+        have := Nat.div_mul_le_self T W
+        rw [hsat] at this; exact this
+      have e1 : (n - 1) * W + (W - 1) = n * (W - 1) + (n - 1) := by
+        have : n * (W - 1) = n * W - n := by rw [Nat.mul_sub, Nat.mul_one]
+        have : n ≤ n * W := Nat.le_mul_of_pos_right _ hWpos
+        omega
+      show ((n - 1) * W + (W - 1)) / n % W = _
+      rw [e1, Nat.mul_add_div hnpos, Nat.div_eq_of_lt (by omega), Nat.add_zero, Nat.mod_eq_of_lt (by omega)]
+      have : W ≤ T / n := (Nat.le_div_iff_mul_le hnpos).mpr (by rw [Nat.mul_comm]; exact hTge)
+      exact (Nat.min_eq_right (by omega)).symm
+    · rw [if_neg hsat]
+      have hcy : T / W < n := by omega
+      have hTW : T < n * W := by
+        have := (Nat.div_lt_iff_lt_mul hWpos).mp hcy
+        exact this
+      show (T / W * W + T % W) / n % W = _
+      have hdm : T / W * W + T % W = T := by rw [Nat.mul_comm]; exact Nat.div_add_mod T W
+      rw [hdm]
+      have hTn : T / n < W := (Nat.div_lt_iff_lt_mul hnpos).mpr (by rw [Nat.mul_comm]; exact hTW)
+      rw [Nat.mod_eq_of_lt hTn]
+      exact (Nat.min_eq_left (by omega)).symm
+
 end Mpir.Rootrem
